@@ -140,6 +140,7 @@ func C16(c *Ctx) {
 	r.Rule("C16-c", "the deferred handler in parse() converts the panic into the returned error list (see C11-e); addErr and addErrAt hand every error on, unconditionally, so the budget error cannot be dropped at record time")
 	r.Rule("C16-d", "newParser: if p.maxExprCnt == 0 { p.maxExprCnt = math.MaxUint64 }")
 	r.Rule("C16-e", "the budget error is delivered: no function the deferred recover handler reaches can panic, and the runtime has no panic site besides the budget and the two impossible-grammar sites (C11-h under this property)")
+	r.Rule("C16-f", "with Memoize off every evaluation is charged: each path through parseExprWrap that returns without calling parseExpr (a cache hit) holds p.memoize - the uncharged iterations of the known finding under C16-b exist under Memoize(true) only")
 	runtimePanicDiscipline(c, "C16-e")
 
 	abs := c.allAbs()
@@ -215,6 +216,31 @@ func C16(c *Ctx) {
 		}
 		sort.Strings(cw)
 		r.Check(len(cw) == 0, "C16-a", "T.ExprCnt:monotone-single-writer", vn, "builder/static_code.go", "only p.ExprCnt++ in parseExpr", strings.Join(cw, "; ")+": evaluated expressions can go uncounted, so the budget no longer bounds the work")
+		// ---- f: the wrapper's uncharged paths are cache hits under p.memoize
+		if pw := v.Func("parser", "parseExprWrap"); pw != nil {
+			var evs []string
+			for _, f := range v.Funcs() {
+				if f.Name.Name != "parseExprWrap" {
+					evs = append(evs, f.Name.Name)
+				}
+			}
+			var whyF []string
+			nCharged, nHit := 0, 0
+			for _, p := range c.vnorm(v).without(evs...).normPaths(pw) {
+				if p.evIndex("call", 0, func(s string) bool { return strings.HasPrefix(s, "p.parseExpr(") }) >= 0 {
+					nCharged++
+					continue
+				}
+				nHit++
+				if !p.holds("p.memoize") {
+					whyF = append(whyF, "parseExprWrap returns without evaluating parseExpr on a path that does not require p.memoize ["+abbreviate(strings.Join(p.facts(), " "))+"]: with Memoize off an expression is answered from the cache without being charged, so a repetition over an empty match never exhausts the budget")
+				}
+			}
+			if nCharged == 0 {
+				whyF = append(whyF, "no path of parseExprWrap evaluates parseExpr")
+			}
+			r.Check(len(whyF) == 0, "C16-f", "T.parseExprWrap:uncharged-paths-require-memoize", vn, v.Where(pw.Pos()), fmt.Sprintf("%d charged paths, %d cache-hit paths, each under p.memoize", nCharged, nHit), strings.Join(uniq(whyF), "; "))
+		}
 		// ---- b
 		mc := mustCharge(a)
 		var mcl []string
